@@ -13,7 +13,7 @@ ANCHORS = ["src/pylife/strength/failure_probability.py"]
 SHARDS = {"quick": 8, "thorough": 16}
 WATCHDOG = {"quick": 900, "thorough": 3000}
 REQUIRED_CLASSES = {t: ["p<1e-9", "1e-9<=p<1e-3", "1e-3<=p<=0.999", "p>0.999", "load_scatter<<strength_scatter",
-                        "load_scatter>>strength_scatter", "medians_orders_apart", "load_scatter_tiny_absolute", "arbitrary_load:far_tail"]
+                        "load_scatter>>strength_scatter", "medians_orders_apart", "load_scatter_tiny_absolute", "arbitrary_load:far_tail", "load_scatter>300x_strength_scatter"]
                     for t in ("quick", "thorough")}
 REQUIRED_MONITORS = ["pf_norm_load==closed_form", "limit_load_scatter->0", "monotone_in_load_median", "monotone_in_strength_median",
                      "0<=p<=1", "pf_arbitrary_load_converges", "pf_simple_load==cdf", "fixed_probes==closed_form"]
@@ -42,6 +42,10 @@ def generate(ctx):
         sS = float(10 ** rng.uniform(-2, -0.5))
         ratio = float(10 ** rng.uniform(-1.2, 1.2))
         sL = float(min(0.5, max(0.002, sS * ratio)))
+        if i % 4 == 3:
+            # a strength distribution far narrower than the load distribution: the integration range follows the load scatter
+            sS = float(10 ** rng.uniform(-4, -1.5))
+            sL = float(min(5.0, sS * 10 ** rng.uniform(1.5, 4.5)))
         S = float(10 ** rng.uniform(1, 3.3))
         # target probability sweeps the whole range on a logit-ish scale
         u = rng.random()
@@ -72,6 +76,8 @@ def run_case(case, ctx):
         ctx.tag("load_scatter<<strength_scatter")
     if sL > 5 * sS:
         ctx.tag("load_scatter>>strength_scatter")
+    if sL > 300 * sS:
+        ctx.tag("load_scatter>300x_strength_scatter")
     if abs(math.log10(L / S)) > 1:
         ctx.tag("medians_orders_apart")
     ctx.nontrivial(True)
@@ -103,8 +109,10 @@ def run_case(case, ctx):
     ctx.tag("load_scatter_tiny_absolute")
     for tiny2 in (1e-7, 1e-9, 1e-14, 1e-30):
         lim2 = float(fp.pf_norm_load(L, tiny2))
-        ctx.check("limit_load_scatter->0", abs(lim2 - simple) <= 1e-6 * max(simple, 1e-300) + 1e-15,
-                  observed={"pf_norm_load": lim2, "load_std": tiny2}, expected=simple,
+        # the exact value for this scatter (it differs from the deterministic one by about z^2 (s_L/s_S)^2 / 2 relatively)
+        e2 = closed(L, tiny2, S, sS) if tiny2 > 1e-4 * sS else simple
+        ctx.check("limit_load_scatter->0", abs(lim2 - e2) <= 1e-6 * max(e2, 1e-300) + 1e-15,
+                  observed={"pf_norm_load": lim2, "load_std": tiny2}, expected=e2,
                   tags=["c15_quad_default_absolute_tolerance"] if simple < 1e-7 else [])
     # monotone in the medians
     up = float(fp.pf_norm_load(L * 1.05, sL))
@@ -113,7 +121,10 @@ def run_case(case, ctx):
     dn = float(fp2.pf_norm_load(L, sL))
     ctx.check("monotone_in_strength_median", dn <= got * (1 + 1e-6) + 1e-15, observed=[got, dn], tags=mech)
     # arbitrary distribution: sampled log-normal density converges to the same value
-    if 1e-6 < exp < 1 - 1e-6:
+    if 16 * sL / 4000 > 0.5 * sS or (exp <= 1e-6 and 24 * sL / 12000 > 0.5 * sS):
+        # the sampled density cannot be finer than the strength distribution is wide: convergence needs more points than are sampled here
+        ctx.skip("arbitrary_load:sampling_coarser_than_strength_scatter")
+    elif 1e-6 < exp < 1 - 1e-6:
         errs = []
         for npts in (501, 2001, 4001):
             x = np.linspace(math.log10(L) - 8 * sL, math.log10(L) + 8 * sL, npts)
